@@ -223,3 +223,4 @@ def run(chk):
     check_timelocks(chk, F, P)
     check_binding(chk, F, P)
     check_thresh_algorithm(chk, F, P, chk.tier)
+    c01.check_has_sig(chk, F, P, rid="R03.6")
